@@ -6,7 +6,7 @@
 package glob
 
 //@ func Glob(pattern, dst string, ignoreMatchers bool) (files map[string]string, err error)
-//@   ensures [C06] loud: implies(err == nil, flag("failed") == old(flag("failed")))
+//@   ensures [C06] loud: implies(err == nil, ghostFlag("failed") == old(ghostFlag("failed")))
 //@   ensures [C11 C12] fresh-result: implies(err == nil, fresh(files))
-//@   ensures [C07] no-clock-no-env: flag("clockRead") == old(flag("clockRead")) && flag("envRead") == old(flag("envRead"))
+//@   ensures [C07] no-clock-no-env: ghostFlag("clockRead") == old(ghostFlag("clockRead")) && ghostFlag("envRead") == old(ghostFlag("envRead"))
 //@   modifies [C11 C12] flag("failed")
